@@ -1,5 +1,6 @@
 From Coq Require Import ZArith List Bool Lia.
 From Arsenal Require Import Util.
+From Arsenal Require VamDev VamBlockList Vam VamInv VamInvThm VamAcctThm VamMap VamMapThm VamDefrag VamDefragThm VamDefragAcct VamDefragMap.
 From Arsenal Require Import SyncMem SyncMemProofs.
 Import ListNotations.
 Open Scope Z_scope.
@@ -47,3 +48,35 @@ Theorem C08_code_postMapUnmap : forall s,
                  (SyncMem.extra (fst (SyncMem.post_map_unmap s))).
 Proof. exact GenLeafProofs.gen_postMapUnmap_eq. Qed.
 Print Assumptions C08_code_postMapUnmap.
+
+(* ---------------------------------------------------------------- whole allocator (model Vam*.v)
+   Every driver call the allocator issues during ANY API operation from ANY reachable state under ANY fault
+   oracle is valid when it is issued: `replay ms calls ms'` says that the calls, oldest first, are accepted one
+   by one by the device objects ms (vkMapMemory only on a live, unmapped object; vkUnmapMemory only on a live,
+   mapped one; vkFreeMemory only on a live one: no double map, no unmap of unmapped memory, no use after free)
+   and lead to ms'.  Not covered by this theorem (decided by the vamh exploration with the simulated device's
+   valid-usage checker): host-visibility of mapped types, bind offsets and types, flush/invalidate ranges,
+   defragmentation calls. *)
+Module Allocator.
+Import VamDev VamBlockList Vam VamInv VamInvThm VamAcctThm VamMap VamMapThm.
+
+Theorem C08_allocator_driver_calls_valid : forall c v o f v' r calls,
+  cfg_acct c -> reachA c v -> op_ok v o -> op_dom o -> step c v o f = (v', r, calls) ->
+  r <> RPanic -> r <> RStuck -> replay (m_mems (v_m v)) calls (m_mems (v_m v')).
+Proof. intros c v o f v' r calls Ha. exact (driver_calls_valid c Ha v o f v' r calls). Qed.
+Print Assumptions C08_allocator_driver_calls_valid.
+
+Theorem C08_allocator_each_call_valid : forall ms cs ms' pre k post,
+  replay ms cs ms' -> cs = (pre ++ k :: post)%list -> exists ms1, replay ms pre ms1 /\ call_ok ms1 k.
+Proof. intros ms cs ms' pre k post R. exact (replay_call ms cs ms' R pre k post). Qed.
+Print Assumptions C08_allocator_each_call_valid.
+(* the same for the defragmentation entry points (BeginDefragmentation, BeginDefragPass, EndDefragPass with any
+   decisions, Finish) from every state of a history with defragmentation: the Map of a destination block for a
+   persistently mapped source, the hysteresis Unmaps, the Frees of blocks emptied by completed moves. *)
+Theorem C08_allocator_defrag_calls_valid : forall c v run o f v' run' r calls dr,
+  cfg_acct c -> VamDefragAcct.reachDA c v run -> VamDefragThm.dop_ok v run o ->
+  Vam.dstep c v run o f = (v', run', r, calls, dr) -> r <> RPanic -> r <> RStuck ->
+  replay (m_mems (v_m v)) calls (m_mems (v_m v')).
+Proof. intros c v run o f v' run' r calls dr Ha. exact (VamDefragMap.dstep_calls_valid c Ha v run o f v' run' r calls dr). Qed.
+Print Assumptions C08_allocator_defrag_calls_valid.
+End Allocator.
